@@ -186,15 +186,19 @@ CHECKS = {
         design="4/C19",
     ),
     "C03": dict(
-        specs=["StructuredR.tla", "Structured.tla", "StructuredIO.tla"],
+        specs=["StructuredR.tla", "Structured.tla", "StructuredIO.tla", "DerivedR.tla", "Derived.tla", "DerivedIO.tla"],
         text="StructuredR gives layout and reference decoding of transform programs (16 opcodes, BUILD kinds, argument steps), "
         "recover programs, execute lists, inject transforms, section tables, pivot frames and the BeaconGate grouping. "
         "Structured.tla runs the program decoder as a position machine over every program of <= 3 steps and TLC checks it "
         "decodes exactly what was encoded and consumes the program; for BeaconGate TLC checks Expand(Groups(v)) = v and "
         "canonicity for all vectors within two flips of a union of groups (quick) or all 2^23 (thorough). TLC-rendered encodings "
         "are embedded in configuration blocks and the library's human-readable values compared; random programs with arguments "
-        "to 300 bytes and random flag vectors are decoded by the library and judged by TLC; strings, digests, IPv4 and derived "
-        "values (domains/URIs/protocol/port/kill date/watermark/trial) are compared with their format definitions.",
+        "to 300 bytes and random flag vectors are decoded by the library and judged by TLC; strings, digests and IPv4 are compared "
+        "with their format definitions. Derived.tla loads the settings one by one into the by-name and by-index views (index 16/17 "
+        "carry the newer names) and reads kill date (SETTING_KILLDATE or the legacy year/month/day), protocol, port and trial flag "
+        "from them; TLC checks them against DerivedR for all 15120 explored configurations and rejects the by-name lookup of the "
+        "shadowed legacy fields; DerivedIO's table (every configuration, every domain/URI text of <= 4/6 characters over {a,b,',','/',NUL}) "
+        "is replayed through BeaconConfig and random settings/texts are judged by TLC (with a corrupted canary event).",
         note="Trusted: TLC, StructuredR, harness formatting of the library's textual forms ('0x..-0x..', 'Name \"mod!fn+0x..\"'), hashlib. "
         "Only well-formed encodings; malformed ones are C08.",
         technique="TLA+ decoder position machine + BeaconGate grouping model-checked by TLC; TLC-rendered encodings replayed; decodings judged by TLC",
